@@ -8,6 +8,7 @@ CONSTANTS
   MaxH = 3
   ResetProvides = TRUE
   TakeEmptiesSlot = FALSE
+  KeyRaceDev = TRUE
   DropReturnsQueued = TRUE
 SPECIFICATION Spec
 INVARIANTS Safe
